@@ -53,6 +53,10 @@ def judge(x, y, a, c, resp):
 
 
 def fn_leg(acc, srv, rng, n_cases):
+    from ..core import dropped_groups
+    if "fn_formulas" in dropped_groups():
+        acc.count("fn_leg_skipped_adapter_built_without_fn_formulas")
+        return
     batch = []
     for _ in range(n_cases):
         x, y, a, tag = swapgen.case(rng)
@@ -73,6 +77,9 @@ def fn_leg(acc, srv, rng, n_cases):
 
 
 def mono_leg(acc, srv, rng, n_pairs):
+    from ..core import dropped_groups
+    if "fn_formulas" in dropped_groups():
+        return
     cases = []
     for _ in range(n_pairs):
         x, y, a, tag = swapgen.case(rng)
@@ -111,6 +118,9 @@ def mono_leg(acc, srv, rng, n_pairs):
 
 
 def canary_fn(acc, srv):
+    from ..core import dropped_groups
+    if "fn_formulas" in dropped_groups():
+        return
     fired = 0
     tests = [(10 ** 9, 10 ** 9, 12345, 3 * 10 ** 15), (5 * 10 ** 20, 7 * 10 ** 12, 10 ** 19, 0)]
     for x, y, a, c in tests:
